@@ -71,6 +71,12 @@ CHECKS.update({
             "The stores are filled at processor level (C05/C11 cover the download path); proofs are verified by the reference verifier that C08 cross-checks against the contract's verifyMerkleProof.", "DESIGN.md §4 C12"),
 })
 
+CHECKS.update({
+    "C15": ("exploration", "runtime monitor: every InjectGER judged at the moment it happens against the reference L1 history and the sender's authoritative set; bounded-progress monitor in oracle ticks; real oracle loop + real L1 info store",
+            "The real aggoracle Start loop runs against a fake L1 client (finality answers from the schedule), the real L1 info store (fed at a scheduled pace: behind / level with / ahead of the finalized block, stalls and catch-ups) behind a recording wrapper, and a fake chain sender. Safety per injection: the root is the most recent reference root at or below a block that was an answer of the finality query and that the oracle queried in this tick, IsGERInjected(same) = false came immediately before, the L2 set does not have it. Progress (in ticks, error-free schedules): injections keep happening while finalized roots keep appearing, and the latest finalized root is on L2 within 8 ticks after everything stands still. One genuine defect (dead sticky target => starvation) found and repaired.",
+            "'Keeps injecting' is restated as bounded progress in ticks; with injected dependency errors only the final clause is judged (errors may delay, not suppress).", "DESIGN.md §4 C15"),
+})
+
 # properties not (yet) claimed: reason
 NOT_APPLICABLE = {
 }
